@@ -465,11 +465,10 @@ mutual
           obtain ⟨hfol, hfr⟩ := hr
           simp only []
           split
-          · split
-            · split
-              · exact genLast_total q hq hfol
-              · exact Ok.pure hfol
-            · exact Ok.pure (inv_plug frames fol hfr hfol)
+          · refine Ok.bind (Q := Inv) ?_ (fun fol' hfol' => Ok.pure (inv_plug frames fol' hfr hfol'))
+            split
+            · exact genLast_total q hq hfol
+            · exact Ok.pure hfol
           · refine Ok.bind (combineIfNecessary_total q hq hfol) (fun p hp => ?_)
             obtain ⟨fol2, frames2⟩ := p
             refine Ok.bind (rwStmts_total q hq rest fol2 hw.2 hp.1) (fun fin hfin => ?_)
@@ -990,11 +989,10 @@ mutual
           obtain ⟨hfol, hfr⟩ := hr
           simp only []
           split
-          · split
-            · split
-              · exact genLast_nf q hfol
-              · exact OkIf.pure hfol
-            · exact OkIf.pure (nf_plug frames fol hfr hfol)
+          · refine OkIf.bind (Q := NF) ?_ (fun fol' hfol' => OkIf.pure (nf_plug frames fol' hfr hfol'))
+            split
+            · exact genLast_nf q hfol
+            · exact OkIf.pure hfol
           · refine OkIf.bind (combineIfNecessary_nf q hfol) (fun p hp => ?_)
             obtain ⟨fol2, frames2⟩ := p
             refine OkIf.bind (rwStmts_nf q rest fol2 hw.2 hp.1) (fun fin hfin => ?_)
